@@ -49,12 +49,14 @@ type FSMSnapshot struct {
 	raft.FSMSnapshot
 	persistInvoked   bool
 	persistSucceeded bool
+	sinkID           string // ID of the sink passed to Persist, available to the Finalizer.
 	logger           *log.Logger
 }
 
 // Persist writes the snapshot to the given sink.
 func (f *FSMSnapshot) Persist(sink raft.SnapshotSink) (retError error) {
 	f.persistInvoked = true
+	f.sinkID = sink.ID()
 
 	startT := time.Now()
 	defer func() {
